@@ -350,6 +350,24 @@ func cmdCheck(args []string) int {
 		trusted = append(trusted, "scope: no safe.*/nofatal/nopanic obligations are generated in this property mode (declared 'mode "+*prop+" nosafety'): panic-freedom of the functions involved is not claimed by this check")
 	}
 	lvl := *level
+	// the level recorded in the evidence is the one claimed in MANIFEST.json for this property
+	if b, err := os.ReadFile(filepath.Join(root, "MANIFEST.json")); err == nil {
+		var mf struct {
+			Checks []struct {
+				PropertyID   string `json:"property_id"`
+				LevelClaimed struct {
+					Category string `json:"category"`
+				} `json:"level_claimed"`
+			} `json:"checks"`
+		}
+		if json.Unmarshal(b, &mf) == nil {
+			for _, c := range mf.Checks {
+				if c.PropertyID == *prop && c.LevelClaimed.Category != "" {
+					lvl = c.LevelClaimed.Category
+				}
+			}
+		}
+	}
 	if nDis != nProve && lvl == "proof" {
 		lvl = "other"
 	}
